@@ -67,68 +67,60 @@ fn map_desc_body<const N: usize>(s: &SymStr<N>, kind: u8) {
 		(Ok(_), Err(())) => panic!("a descriptor with a dangling L or an empty L; was rewritten instead of refused"),
 		(Err(_), Ok(_)) => panic!("a well-formed descriptor was refused"),
 	}
-	witness!(matches!(w, Ok(n) if n == s.len + 1), "the mapped name a -> bb occurs");
-	witness!(w.is_err() && s.len == N, "dangling L at maximal length");
+	witness!(w.is_err(), "a refused descriptor (dangling L or empty L;)");
+	witness!(w.is_ok(), "an accepted descriptor");
 	core::mem::forget(got);
 }
 
-//# {"id":"c06_map_desc_ascii3","props":["C06","C08"],"tier":"quick","cap":1500,"bound":"every ASCII string of length 0..=3 as field / method / return descriptor; hash-free remapper a->bb, c->d; unwind 6","z":["stubbing"],"fns":["quill::remapper::map_desc","ARemapper::{map_field_desc,map_method_desc,map_return_desc,map_class}"]}
-//# {"id":"c06_map_desc_alpha5","props":["C06","C08"],"tier":"thorough","cap":3600,"bound":"every string of length 0..=5 over the alphabet L ; [ a c x / ( ) as field descriptor; unwind 8","z":["stubbing"],"fns":["quill::remapper::map_desc","ARemapper::map_field_desc"]}
-//# {"id":"c06_map_class_defaults","props":["C06"],"tier":"quick","cap":1200,"bound":"map_class / map_class_any on every valid ASCII class name of length 1..=3 (object names) and on array names [La; [Lx; [[I; unwind 8","z":["stubbing"],"fns":["ARemapper::{map_class,map_class_any}","map_desc"]}
-//# {"id":"c06_map_desc_field_x2","props":["C06","C08"],"tier":"quick","cap":900,"bound":"every ASCII string of length exactly 2 as field descriptor; unwind 5","z":["stubbing"],"fns":["quill::remapper::map_desc","ARemapper::{map_field_desc,map_class}"]}
-//# {"id":"c06_map_desc_field_x3","props":["C06","C08"],"tier":"quick","cap":900,"bound":"every ASCII string of length exactly 3 as field descriptor; unwind 6","z":["stubbing"],"fns":["quill::remapper::map_desc","ARemapper::{map_field_desc,map_class}"]}
-//# {"id":"c06_map_desc_method_x3","props":["C06","C08"],"tier":"quick","cap":900,"bound":"every ASCII string of length exactly 3 as method descriptor; unwind 6","z":["stubbing"],"fns":["quill::remapper::map_desc","ARemapper::{map_method_desc,map_class}"]}
-//# {"id":"c06_map_desc_alpha_x4","props":["C06","C08"],"tier":"quick","cap":900,"bound":"every string of length exactly 4 over the alphabet L ; [ a c x / as field descriptor; unwind 7","z":["stubbing"],"fns":["quill::remapper::map_desc","ARemapper::{map_field_desc,map_class}"]}
-//# {"id":"c06_map_desc_alpha_x3","props":["C06","C08"],"tier":"quick","cap":900,"bound":"every string of length exactly 3 over the alphabet L ; [ a c x / as field descriptor; unwind 6","z":["stubbing"],"fns":["quill::remapper::map_desc","ARemapper::{map_field_desc,map_class}"]}
+/// A descriptor from a template: every `?` is a fresh symbolic ASCII byte (it may also be `L` or `;`),
+/// every other byte is taken literally. The templates fix the length and the position of the
+/// structure bytes, which keeps the formula small; all bytes at `?` are universally quantified.
+fn from_template<const N: usize>(t: &[u8; N]) -> SymStr<N> {
+	let mut bytes = *t;
+	let mut i = 0;
+	while i < N {
+		if t[i] == b'?' { let b = sym::u8(); sym::assume(b >= 1 && b < 0x80); bytes[i] = b; }
+		i += 1;
+	}
+	SymStr { bytes, len: N }
+}
+fn template_body<const N: usize>(t: &[u8; N], kind: u8) { let s = from_template(t); map_desc_body(&s, kind); }
+
+//# {"id":"c06_map_desc_len0_2","props":["C06","C08"],"tier":"quick","cap":900,"bound":"every ASCII string of length 0, 1 and 2 as field / method / return descriptor (no L...; can be complete at this length); unwind 5","fns":["quill::remapper::map_desc","ARemapper::{map_field_desc,map_method_desc,map_return_desc,map_class}"]}
+//# {"id":"c06_map_desc_t_Lx","props":["C06","C08"],"tier":"quick","cap":900,"bound":"all strings L?; (? = any ASCII byte incl. L and ;): the mapped name a->bb, c->d, unmapped names, L;; and LL; ; unwind 6","lib":"verif","fns":["quill::remapper::map_desc","ARemapper::{map_field_desc,map_class}"]}
+//# {"id":"c06_map_desc_t_xLx","props":["C06","C08"],"tier":"quick","cap":1200,"bound":"all strings ?L?; as field descriptor (array / garbage prefix byte, one-byte name); unwind 7","lib":"verif","fns":["quill::remapper::map_desc","ARemapper::{map_field_desc,map_class}"]}
+//# {"id":"c06_map_desc_t_Lxx","props":["C06","C08"],"tier":"quick","cap":1200,"bound":"all strings L??; as return descriptor (two-byte names, early ;); unwind 7","lib":"verif","fns":["quill::remapper::map_desc","ARemapper::{map_return_desc,map_class}"]}
+//# {"id":"c06_map_desc_t_Lx_x","props":["C06","C08"],"tier":"thorough","cap":2400,"bound":"all strings L?;? as field descriptor (a byte after the class name); unwind 7","lib":"verif","fns":["quill::remapper::map_desc","ARemapper::{map_field_desc,map_class}"]}
+//# {"id":"c06_map_desc_t_method","props":["C06","C08"],"tier":"thorough","cap":3000,"bound":"all strings (L?;)L?; as method descriptor (two names in one descriptor); unwind 11","lib":"verif","fns":["quill::remapper::map_desc","ARemapper::{map_method_desc,map_class}"]}
+//# {"id":"c06_map_desc_t_arr","props":["C06","C08"],"tier":"thorough","cap":3000,"bound":"all strings [[L?/?; as field descriptor (package-qualified name inside an array descriptor); unwind 10","lib":"verif","fns":["quill::remapper::map_desc","ARemapper::{map_field_desc,map_class}"]}
+//# {"id":"c06_map_desc_ascii3","props":["C06","C08"],"tier":"thorough","cap":3600,"bound":"every ASCII string of length 0..=3 as field / method / return descriptor; hash-free remapper a->bb, c->d; unwind 6 (exceeded 12 GB in every run so far: expected UNDECIDED)","fns":["quill::remapper::map_desc","ARemapper::{map_field_desc,map_method_desc,map_return_desc,map_class}"]}
+//# {"id":"c06_map_class_defaults","props":["C06"],"tier":"quick","cap":1200,"bound":"map_class / map_class_any on every valid ASCII class name of length 1..=3 (object names) and on array names [La; [Lx; [[I; unwind 8","lib":"verif","fns":["ARemapper::{map_class,map_class_any}","map_desc"]}
 proofs! {
-	#[cfg_attr(kani, kani::unwind(6))]
-	#[cfg_attr(kani, kani::stub(std::alloc::alloc, crate::hstubs::alloc_stub))]
-	#[cfg_attr(kani, kani::stub(std::alloc::alloc_zeroed, crate::hstubs::alloc_zeroed_stub))]
-	#[cfg_attr(kani, kani::stub(std::alloc::realloc, crate::hstubs::realloc_stub))]
-	#[cfg_attr(kani, kani::stub(std::alloc::dealloc, crate::hstubs::dealloc_stub))]
-	fn c06_map_desc_alpha_x3() { let s = SymStr::<3>::over(b"L;[acx/", 3, 3); map_desc_body(&s, 0); }
 	#[cfg_attr(kani, kani::unwind(5))]
-	#[cfg_attr(kani, kani::stub(std::alloc::alloc, crate::hstubs::alloc_stub))]
-	#[cfg_attr(kani, kani::stub(std::alloc::alloc_zeroed, crate::hstubs::alloc_zeroed_stub))]
-	#[cfg_attr(kani, kani::stub(std::alloc::realloc, crate::hstubs::realloc_stub))]
-	#[cfg_attr(kani, kani::stub(std::alloc::dealloc, crate::hstubs::dealloc_stub))]
-	fn c06_map_desc_field_x2() { let s = SymStr::<2>::exact(); map_desc_body(&s, 0); }
+	fn c06_map_desc_len0_2() {
+		let kind = sym::u8_in(0, 2);
+		match sym::u8_in(0, 2) {
+			0 => { let s = SymStr::<0>::exact(); map_desc_body(&s, kind); },
+			1 => { let s = SymStr::<1>::exact(); map_desc_body(&s, kind); },
+			_ => { let s = SymStr::<2>::exact(); map_desc_body(&s, kind); },
+		}
+	}
 	#[cfg_attr(kani, kani::unwind(6))]
-	#[cfg_attr(kani, kani::stub(std::alloc::alloc, crate::hstubs::alloc_stub))]
-	#[cfg_attr(kani, kani::stub(std::alloc::alloc_zeroed, crate::hstubs::alloc_zeroed_stub))]
-	#[cfg_attr(kani, kani::stub(std::alloc::realloc, crate::hstubs::realloc_stub))]
-	#[cfg_attr(kani, kani::stub(std::alloc::dealloc, crate::hstubs::dealloc_stub))]
-	fn c06_map_desc_field_x3() { let s = SymStr::<3>::exact(); map_desc_body(&s, 0); }
-	#[cfg_attr(kani, kani::unwind(6))]
-	#[cfg_attr(kani, kani::stub(std::alloc::alloc, crate::hstubs::alloc_stub))]
-	#[cfg_attr(kani, kani::stub(std::alloc::alloc_zeroed, crate::hstubs::alloc_zeroed_stub))]
-	#[cfg_attr(kani, kani::stub(std::alloc::realloc, crate::hstubs::realloc_stub))]
-	#[cfg_attr(kani, kani::stub(std::alloc::dealloc, crate::hstubs::dealloc_stub))]
-	fn c06_map_desc_method_x3() { let s = SymStr::<3>::exact(); map_desc_body(&s, 1); }
+	fn c06_map_desc_t_Lx() { template_body(b"L?;", 0); }
 	#[cfg_attr(kani, kani::unwind(7))]
-	#[cfg_attr(kani, kani::stub(std::alloc::alloc, crate::hstubs::alloc_stub))]
-	#[cfg_attr(kani, kani::stub(std::alloc::alloc_zeroed, crate::hstubs::alloc_zeroed_stub))]
-	#[cfg_attr(kani, kani::stub(std::alloc::realloc, crate::hstubs::realloc_stub))]
-	#[cfg_attr(kani, kani::stub(std::alloc::dealloc, crate::hstubs::dealloc_stub))]
-	fn c06_map_desc_alpha_x4() { let s = SymStr::<4>::over(b"L;[acx/", 4, 4); map_desc_body(&s, 0); }
+	fn c06_map_desc_t_xLx() { template_body(b"?L?;", 0); }
+	#[cfg_attr(kani, kani::unwind(7))]
+	fn c06_map_desc_t_Lxx() { template_body(b"L??;", 2); }
+	#[cfg_attr(kani, kani::unwind(7))]
+	fn c06_map_desc_t_Lx_x() { template_body(b"L?;?", 0); }
+	#[cfg_attr(kani, kani::unwind(11))]
+	fn c06_map_desc_t_method() { template_body(b"(L?;)L?;", 1); }
+	#[cfg_attr(kani, kani::unwind(10))]
+	fn c06_map_desc_t_arr() { template_body(b"[[L?/?;", 0); }
 	#[cfg_attr(kani, kani::unwind(6))]
-	#[cfg_attr(kani, kani::stub(std::alloc::alloc, crate::hstubs::alloc_stub))]
-	#[cfg_attr(kani, kani::stub(std::alloc::alloc_zeroed, crate::hstubs::alloc_zeroed_stub))]
-	#[cfg_attr(kani, kani::stub(std::alloc::realloc, crate::hstubs::realloc_stub))]
-	#[cfg_attr(kani, kani::stub(std::alloc::dealloc, crate::hstubs::dealloc_stub))]
 	fn c06_map_desc_ascii3() { let s = SymStr::<3>::any(0, 3); let kind = sym::u8_in(0, 2); map_desc_body(&s, kind); }
-	#[cfg_attr(kani, kani::unwind(8))]
-	#[cfg_attr(kani, kani::stub(std::alloc::alloc, crate::hstubs::alloc_stub))]
-	#[cfg_attr(kani, kani::stub(std::alloc::alloc_zeroed, crate::hstubs::alloc_zeroed_stub))]
-	#[cfg_attr(kani, kani::stub(std::alloc::realloc, crate::hstubs::realloc_stub))]
-	#[cfg_attr(kani, kani::stub(std::alloc::dealloc, crate::hstubs::dealloc_stub))]
-	fn c06_map_desc_alpha5() { let s = SymStr::<5>::over(b"L;[acx/()", 0, 5); map_desc_body(&s, 0); }
 
 	#[cfg_attr(kani, kani::unwind(8))]
-	#[cfg_attr(kani, kani::stub(std::alloc::alloc, crate::hstubs::alloc_stub))]
-	#[cfg_attr(kani, kani::stub(std::alloc::alloc_zeroed, crate::hstubs::alloc_zeroed_stub))]
-	#[cfg_attr(kani, kani::stub(std::alloc::realloc, crate::hstubs::realloc_stub))]
-	#[cfg_attr(kani, kani::stub(std::alloc::dealloc, crate::hstubs::dealloc_stub))]
 	fn c06_map_class_defaults() {
 		use crate::refmodel::grammar;
 		let s = SymStr::<3>::any(1, 3);
